@@ -102,6 +102,10 @@ type r2parseVal struct {
 	sel  string
 	// r2parseSlice
 	elems []*r2parseVal
+	// carried: the value was read (directly or through a computation) from local
+	// variables that are assigned inside an enclosing loop body but whose current
+	// binding on this path predates the running iteration (loop-carried values)
+	carried []string
 	// r2parseConv: the converted operand was the cursor's kind; sinceDisp = upper bound of
 	// the tokens consumed between the last decision on the cursor's kind and the read
 	ofCursor  bool
@@ -131,8 +135,17 @@ type r2parseState struct {
 	ret       []*r2parseVal
 	made      []*r2parseVal // results #0 of the parser-method calls made on this path (in order)
 	retSet    bool
-	pend      []r2parsePend // observations of the running rule, decided at the path end
+	pend      []r2parsePend        // observations of the running rule, decided at the path end
+	bindSeq   map[types.Object]int // local variable -> capture counter at its last assignment on this path
+	ctrl      []r2parseCtrl        // regions whose execution was decided by a loop-carried value
 }
+
+type r2parseCtrl struct {
+	lo, hi token.Pos
+	why    string
+}
+
+type r2parseIfRegion struct{ condLo, condHi, lo, hi token.Pos }
 
 // r2parsePend is an observation a rule parks on the path until it knows whether
 // the path ends successfully.
@@ -165,6 +178,11 @@ func r2parseClone(s *r2parseState) *r2parseState {
 	n.ret = append([]*r2parseVal(nil), s.ret...)
 	n.made = append([]*r2parseVal(nil), s.made...)
 	n.pend = append([]r2parsePend(nil), s.pend...)
+	n.ctrl = append([]r2parseCtrl(nil), s.ctrl...)
+	n.bindSeq = make(map[types.Object]int, len(s.bindSeq))
+	for k, v := range s.bindSeq {
+		n.bindSeq[k] = v
+	}
 	return n
 }
 
@@ -266,6 +284,10 @@ func (e *r2parseEngine) funcKey(fd *ast.FuncDecl) string { return "parser." + Fu
 type r2parseLoop struct {
 	pos, bodyLo, bodyHi token.Pos
 	sep                 string // the loop condition tests the cursor for this separator kind (","), "" otherwise
+	// locals declared outside the body that the body (re)assigns with a value that is
+	// not a self-update (x++, x op= e, x = f(x) are accumulators / counters by shape)
+	assigned map[types.Object]bool
+	label    string
 }
 
 type r2parseObserver struct {
@@ -296,6 +318,10 @@ type r2parseRun struct {
 	obs    r2parseObserver
 	undec  []string
 	paths  int
+	ifs    []r2parseIfRegion
+	// while a pure helper is evaluated inline: the call in the analysed method
+	inlineSite  ast.Node
+	inlineDepth int
 }
 
 func (e *r2parseEngine) newRun(fd *ast.FuncDecl, consts map[types.Object]bool) *r2parseRun {
@@ -308,6 +334,8 @@ func (e *r2parseEngine) newRun(fd *ast.FuncDecl, consts map[types.Object]bool) *
 	}
 	ast.Inspect(fd.Body, func(n ast.Node) bool {
 		switch x := n.(type) {
+		case *ast.IfStmt:
+			run.ifs = append(run.ifs, r2parseIfRegion{condLo: x.Cond.Pos(), condHi: x.Cond.End(), lo: x.Body.Lbrace, hi: x.End()})
 		case *ast.ForStmt:
 			l := r2parseLoop{pos: x.Pos(), bodyLo: x.Body.Lbrace, bodyHi: x.Body.Rbrace}
 			if x.Cond != nil {
@@ -317,13 +345,71 @@ func (e *r2parseEngine) newRun(fd *ast.FuncDecl, consts map[types.Object]bool) *
 					}
 				})
 			}
+			l.assigned = e.assignedIn(x.Body)
+			l.label = "for {}"
+			if x.Cond != nil {
+				l.label = "for " + spShort(exprStr(x.Cond))
+			}
 			run.loops = append(run.loops, l)
 		case *ast.RangeStmt:
-			run.loops = append(run.loops, r2parseLoop{pos: x.Pos(), bodyLo: x.Body.Lbrace, bodyHi: x.Body.Rbrace})
+			run.loops = append(run.loops, r2parseLoop{pos: x.Pos(), bodyLo: x.Body.Lbrace, bodyHi: x.Body.Rbrace,
+				assigned: e.assignedIn(x.Body), label: "range " + spShort(exprStr(x.X))})
 		}
 		return true
 	})
 	return run
+}
+
+// assignedIn: the local variables declared outside body that body (re)assigns
+// with something other than a self-update. x++, x op= e and x = <expr reading x>
+// (x = append(x, …), x = f(x, …)) are accumulators / counters by shape: their
+// loop-carried dependence is the point of the variable.
+func (e *r2parseEngine) assignedIn(body *ast.BlockStmt) map[types.Object]bool {
+	plain := map[types.Object]bool{}
+	outside := func(o types.Object) bool {
+		return o != nil && !(o.Pos() > body.Lbrace && o.Pos() < body.Rbrace)
+	}
+	mentions := func(n ast.Node, o types.Object) bool {
+		found := false
+		ast.Inspect(n, func(m ast.Node) bool {
+			if id, ok := m.(*ast.Ident); ok && e.info.Uses[id] == o {
+				found = true
+			}
+			return !found
+		})
+		return found
+	}
+	ast.Inspect(body, func(n ast.Node) bool {
+		if _, ok := n.(*ast.FuncLit); ok {
+			return false
+		}
+		as, ok := n.(*ast.AssignStmt)
+		if !ok || as.Tok != token.ASSIGN {
+			return true
+		}
+		for i, l := range as.Lhs {
+			id, ok := ast.Unparen(l).(*ast.Ident)
+			if !ok {
+				continue
+			}
+			o, _ := e.info.Uses[id].(*types.Var)
+			if o == nil || o.IsField() || !outside(o) || o.Pkg() == nil || o.Parent() == o.Pkg().Scope() {
+				continue
+			}
+			var rhs ast.Node
+			if len(as.Rhs) == len(as.Lhs) {
+				rhs = as.Rhs[i]
+			} else if len(as.Rhs) == 1 {
+				rhs = as.Rhs[0]
+			}
+			if rhs != nil && mentions(rhs, o) {
+				continue
+			}
+			plain[o] = true
+		}
+		return true
+	})
+	return plain
 }
 
 // innermostLoop returns the innermost loop whose body contains p (ok=false: none).
@@ -363,7 +449,7 @@ func (run *r2parseRun) touch(st *r2parseState, p token.Pos) {
 func (run *r2parseRun) walk() {
 	e := run.e
 	info := e.info
-	st := &r2parseState{env: map[types.Object]*r2parseVal{}, errNil: map[types.Object]int8{}, calls: map[types.Object]*r2parseCallRec{}, loops: map[token.Pos]*r2parseCap{}}
+	st := &r2parseState{env: map[types.Object]*r2parseVal{}, errNil: map[types.Object]int8{}, calls: map[types.Object]*r2parseCallRec{}, loops: map[token.Pos]*r2parseCap{}, bindSeq: map[types.Object]int{}}
 	entryCur := &r2parseCap{off: 0}
 	entryPrev := &r2parseCap{off: -1}
 	st.disp = entryCur
@@ -461,6 +547,60 @@ func r2parseTokSpan(c *r2parseCap, desc string) *r2parseVal {
 
 func r2parseUnk(desc string) *r2parseVal { return &r2parseVal{k: r2parseUnknown, desc: desc} }
 
+// r2parseUnkFrom: an opaque value computed from the operands (keeps what they carry).
+func r2parseUnkFrom(desc string, from ...*r2parseVal) *r2parseVal {
+	v := &r2parseVal{k: r2parseUnknown, desc: desc}
+	seen := map[*r2parseVal]bool{}
+	for _, f := range from {
+		v.carried = append(v.carried, r2parseCarried(f, seen)...)
+		if f != nil {
+			v.args = append(v.args, f) // what it was computed from (reachability of parameters)
+		}
+	}
+	return v
+}
+
+// r2parseCarried collects the loop-carried reads a value was computed from
+// (locations and spans excluded: R-span-fresh-start decides those).
+func r2parseCarried(v *r2parseVal, seen map[*r2parseVal]bool) []string {
+	if v == nil || seen[v] || v.k == r2parseLoc || v.k == r2parseSpan {
+		return nil
+	}
+	seen[v] = true
+	out := append([]string(nil), v.carried...)
+	names := make([]string, 0, len(v.fields))
+	for n := range v.fields {
+		names = append(names, n)
+	}
+	sort.Strings(names)
+	for _, n := range names {
+		out = append(out, r2parseCarried(v.fields[n], seen)...)
+	}
+	for _, a := range v.args {
+		out = append(out, r2parseCarried(a, seen)...)
+	}
+	for _, a := range v.elems {
+		out = append(out, r2parseCarried(a, seen)...)
+	}
+	out = append(out, r2parseCarried(v.base, seen)...)
+	return out
+}
+
+// carriedRead: obj is read now; is its binding older than the running iteration of
+// an enclosing loop whose body assigns it?
+func (run *r2parseRun) carriedRead(st *r2parseState, obj types.Object) string {
+	for _, l := range run.loops {
+		it := st.loops[l.pos]
+		if it == nil || !l.assigned[obj] {
+			continue
+		}
+		if st.bindSeq[obj] <= it.seq {
+			return fmt.Sprintf("%s (assigned inside `%s`, but on this path its value was last set before the iteration began)", obj.Name(), l.label)
+		}
+	}
+	return ""
+}
+
 func (run *r2parseRun) objOf(e ast.Expr) types.Object {
 	id, ok := ast.Unparen(e).(*ast.Ident)
 	if !ok || id.Name == "_" {
@@ -501,9 +641,16 @@ func (run *r2parseRun) eval(st *r2parseState, x ast.Expr, nested bool) *r2parseV
 			if _, isNil := obj.(*types.Nil); isNil {
 				return &r2parseVal{k: r2parseZero, desc: "nil"}
 			}
-			if v := st.env[obj]; v != nil {
-				return v
+			v := st.env[obj]
+			if v == nil {
+				v = r2parseUnk(x.Name)
 			}
+			if why := run.carriedRead(st, obj); why != "" {
+				c := *v
+				c.carried = append(append([]string(nil), v.carried...), why)
+				v = &c
+			}
+			return v
 		}
 		return r2parseUnk(x.Name)
 	case *ast.SelectorExpr:
@@ -575,16 +722,15 @@ func (run *r2parseRun) eval(st *r2parseState, x ast.Expr, nested bool) *r2parseV
 		if x.Op == token.AND {
 			return run.eval(st, x.X, nested)
 		}
-		run.eval(st, x.X, false)
-		return r2parseUnk(exprStr(x))
+		return r2parseUnkFrom(exprStr(x), run.eval(st, x.X, false))
 	case *ast.BinaryExpr:
-		run.eval(st, x.X, false)
-		run.eval(st, x.Y, false)
-		return r2parseUnk(exprStr(x))
+		a := run.eval(st, x.X, false)
+		b := run.eval(st, x.Y, false)
+		return r2parseUnkFrom(exprStr(x), a, b)
 	case *ast.IndexExpr:
-		run.eval(st, x.X, false)
-		run.eval(st, x.Index, false)
-		return r2parseUnk(exprStr(x))
+		a := run.eval(st, x.X, false)
+		b := run.eval(st, x.Index, false)
+		return r2parseUnkFrom(exprStr(x), a, b)
 	case *ast.CompositeLit:
 		return run.evalLit(st, x, nested)
 	case *ast.CallExpr:
@@ -678,6 +824,9 @@ func (run *r2parseRun) buildSpan(st *r2parseState, site ast.Node, a, b, f ast.Ex
 	if bv == nil || bv.k != r2parseLoc {
 		bv = &r2parseVal{k: r2parseLoc, edge: edgeEnd, desc: "? (" + bv.String() + ")"}
 	}
+	if run.inlineSite != nil {
+		site = run.inlineSite // built by a helper: the construction belongs to the call
+	}
 	v := &r2parseVal{k: r2parseSpan, start: av, end: bv, hasFn: true, built: site, desc: "span(" + av.desc + " .. " + bv.desc + ")"}
 	if run.obs.span != nil {
 		run.obs.span(st, site, v, nested)
@@ -724,7 +873,7 @@ func (run *r2parseRun) evalCall(st *r2parseState, x *ast.CallExpr, nested bool) 
 			case "make", "new":
 				return &r2parseVal{k: r2parseSlice, typ: info.Types[x].Type, desc: b.Name() + "(…)"}
 			}
-			return r2parseUnk(b.Name() + "(…)")
+			return r2parseUnkFrom(b.Name()+"(…)", args...)
 		}
 	}
 	fn := CalleeOf(info, x)
@@ -743,6 +892,12 @@ func (run *r2parseRun) evalCall(st *r2parseState, x *ast.CallExpr, nested bool) 
 			recvVal = run.eval(st, sel.X, false)
 		}
 	}
+	// <token kind held in a local>.Prec(): the power of the token the kind was read from
+	if fn != nil && recvVal != nil && recvVal.k == r2parseTok && recvVal.sel == e.px.kindF.Name() && recvVal.at != nil && len(x.Args) == 0 {
+		if sig := fn.Type().(*types.Signature); sig.Results().Len() == 2 && types.Identical(sig.Recv().Type(), e.px.kindT) && fn.Name() == "Prec" {
+			return &r2parseVal{k: r2parsePrecV, at: recvVal.at, idx: 0, desc: exprStr(x)}
+		}
+	}
 	var args []*r2parseVal
 	for _, a := range x.Args {
 		args = append(args, run.eval(st, a, true))
@@ -751,7 +906,7 @@ func (run *r2parseRun) evalCall(st *r2parseState, x *ast.CallExpr, nested bool) 
 		run.obs.call(st, x, fn, "", args)
 	}
 	if fn == nil {
-		return r2parseUnk(exprStr(x.Fun) + "(…)")
+		return r2parseUnkFrom(exprStr(x.Fun)+"(…)", args...)
 	}
 	sig := fn.Type().(*types.Signature)
 	if m := e.convs[fn]; m != nil && len(x.Args) == 1 {
@@ -772,15 +927,35 @@ func (run *r2parseRun) evalCall(st *r2parseState, x *ast.CallExpr, nested bool) 
 		}
 		return v
 	}
-	// trivial accessor of the parser (no parameters, body `return <expr>`, moves nothing): inline it
+	// pure one-line helper of the parser (body `return <expr>`, moves nothing): inline it with
+	// its parameters bound to the argument values (currentStart(), spanFrom(start), …)
 	if fd := e.sp.decls[fn]; fd != nil && fd.Body != nil && sig.Recv() != nil && recvNamed(sig.Recv().Type()) == e.sp.parserT &&
-		sig.Params().Len() == 0 && len(fd.Body.List) == 1 && fd.Recv != nil && len(fd.Recv.List) == 1 && len(fd.Recv.List[0].Names) == 1 {
-		if ret, ok := fd.Body.List[0].(*ast.ReturnStmt); ok && len(ret.Results) == 1 && !r2parseHasCall(ret.Results[0]) {
+		!sig.Variadic() && len(fd.Body.List) == 1 && fd.Recv != nil && len(fd.Recv.List) == 1 && len(fd.Recv.List[0].Names) == 1 && run.inlineDepth < 4 {
+		if ret, ok := fd.Body.List[0].(*ast.ReturnStmt); ok && len(ret.Results) == 1 && !run.hasConsumerCall(ret.Results[0]) {
 			if sel, ok := ast.Unparen(x.Fun).(*ast.SelectorExpr); ok && run.isRecv(sel.X) {
-				saved := run.recv
+				saved, savedSite := run.recv, run.inlineSite
 				run.recv, _ = info.Defs[fd.Recv.List[0].Names[0]].(*types.Var)
+				if run.inlineSite == nil {
+					run.inlineSite = x
+				}
+				run.inlineDepth++
+				var bound []types.Object
+				i := 0
+				for _, f := range fd.Type.Params.List {
+					for _, n := range f.Names {
+						if o := info.Defs[n]; o != nil && i < len(args) {
+							st.env[o] = args[i]
+							bound = append(bound, o)
+						}
+						i++
+					}
+				}
 				v := run.eval(st, ret.Results[0], nested)
-				run.recv = saved
+				for _, o := range bound {
+					delete(st.env, o)
+				}
+				run.inlineDepth--
+				run.recv, run.inlineSite = saved, savedSite
 				return v
 			}
 		}
@@ -817,7 +992,7 @@ func (run *r2parseRun) evalCall(st *r2parseState, x *ast.CallExpr, nested bool) 
 		v.fn = fn
 		return v
 	}
-	return r2parseUnk(exprStr(x.Fun) + "(…)")
+	return r2parseUnkFrom(exprStr(x.Fun)+"(…)", append(args, recvVal)...)
 }
 
 // applyCall applies the effect of a call of a parser method.
@@ -860,6 +1035,20 @@ func (run *r2parseRun) bindIdent(st *r2parseState, lhs ast.Expr, v *r2parseVal) 
 	if obj == nil {
 		return
 	}
+	st.seq++
+	st.bindSeq[obj] = st.seq
+	for _, r := range st.ctrl {
+		if lhs.Pos() > r.lo && lhs.Pos() < r.hi {
+			var c r2parseVal
+			if v != nil {
+				c = *v
+			} else {
+				c = r2parseVal{k: r2parseUnknown, desc: exprStr(lhs)}
+			}
+			c.carried = append(append([]string(nil), c.carried...), obj.Name()+" (assigned under "+r.why+")")
+			v = &c
+		}
+	}
 	if e.sp.isErrPtr(obj.Type()) {
 		delete(st.errNil, obj)
 		delete(st.calls, obj)
@@ -871,7 +1060,7 @@ func (run *r2parseRun) bindIdent(st *r2parseState, lhs ast.Expr, v *r2parseVal) 
 		}
 		return
 	}
-	if v == nil || v.k == r2parseUnknown {
+	if v == nil || (v.k == r2parseUnknown && len(v.carried) == 0) {
 		delete(st.env, obj)
 		return
 	}
@@ -1002,6 +1191,8 @@ func (run *r2parseRun) stmt(st *r2parseState, s ast.Stmt) {
 		for _, l := range x.Lhs {
 			if obj := run.objOf(l); obj != nil {
 				delete(st.env, obj)
+				st.seq++
+				st.bindSeq[obj] = st.seq
 			}
 		}
 	case *ast.DeclStmt:
@@ -1024,6 +1215,8 @@ func (run *r2parseRun) stmt(st *r2parseState, s ast.Stmt) {
 					run.bindIdent(st, n, v)
 					continue
 				}
+				st.seq++
+				st.bindSeq[obj] = st.seq
 				if e.sp.isErrPtr(obj.Type()) {
 					st.errNil[obj] = 1
 					continue
@@ -1103,7 +1296,15 @@ func (run *r2parseRun) cond(st *r2parseState, cond ast.Expr, taken bool) bool {
 			return true
 		}
 	}
-	run.eval(st, cond, false)
+	cv := run.eval(st, cond, false)
+	if why := r2parseCarried(cv, map[*r2parseVal]bool{}); len(why) > 0 {
+		// a branch decided by a loop-carried value: what is assigned under it is carried too
+		for _, r := range run.ifs {
+			if cond.Pos() >= r.condLo && cond.Pos() < r.condHi {
+				st.ctrl = append(st.ctrl, r2parseCtrl{lo: r.lo, hi: r.hi, why: "a branch on " + why[0]})
+			}
+		}
+	}
 	st.note("%s:%v", spShort(exprStr(cond)), taken)
 	return true
 }
@@ -1299,6 +1500,20 @@ func (e *r2parseEngine) steers(fd *ast.FuncDecl, p *types.Var) bool {
 		return !res
 	})
 	return res
+}
+
+// hasConsumerCall: does x call a method that can move the cursor?
+func (run *r2parseRun) hasConsumerCall(x ast.Expr) bool {
+	found := false
+	ast.Inspect(x, func(n ast.Node) bool {
+		if c, ok := n.(*ast.CallExpr); ok {
+			if g := CalleeOf(run.e.info, c); g != nil && run.e.sp.isConsumer(g) {
+				found = true
+			}
+		}
+		return !found
+	})
+	return found
 }
 
 func r2parseHasCall(e ast.Expr) bool {
